@@ -28,7 +28,15 @@ def summary_range(mode):
     return f
 
 
+def _keep_original(data, name):
+    """remember the function the working tree defines (once per process)"""
+    orig = data.__dict__.setdefault("_symx_originals", {})
+    if name not in orig:
+        orig[name] = getattr(data, name)
+
+
 def install_range_summary(data, mode):
+    _keep_original(data, "get_days_in_year_range")
     data.get_days_in_year_range = summary_range(mode)
 
 
@@ -37,19 +45,22 @@ def install_weeks_summary(data, mode):
     evaluated on the proxies without forking (C03's week_start obligation
     discharges `get_weeks_in_year(y) == weeks_in_year(y)` for every year)"""
     from symx.core import MOps
+    _keep_original(data, "get_weeks_in_year")
     data.get_weeks_in_year = lambda year: R.weeks_in_year(MOps, mode, year)
 
 
 def uninstall_weeks_summary(data):
-    def get_weeks_in_year(year):
-        return data._get_weeks_in_year(year, data.CALENDAR.mode)
-    data.get_weeks_in_year = get_weeks_in_year
+    """put the working tree's own get_weeks_in_year back"""
+    orig = data.__dict__.get("_symx_originals", {})
+    if "get_weeks_in_year" in orig:
+        data.get_weeks_in_year = orig["get_weeks_in_year"]
 
 
 def uninstall_range_summary(data):
-    def get_days_in_year_range(start_year, end_year):
-        return data._get_days_in_year_range(start_year, end_year, data.CALENDAR.mode)
-    data.get_days_in_year_range = get_days_in_year_range
+    """put the working tree's own get_days_in_year_range back"""
+    orig = data.__dict__.get("_symx_originals", {})
+    if "get_days_in_year_range" in orig:
+        data.get_days_in_year_range = orig["get_days_in_year_range"]
 
 
 # ---------------------------------------------------------------------------
